@@ -273,28 +273,40 @@ def library_operators(case, mesh, ff):
     return dense(L).astype(complex), dense(A).astype(complex)
 
 
+EPS = 1e-15
+
+
 def replicate_solve(L, A, free, fixed, var0, n_smooth, alpha):
     """The documented scheme (harmonic extension, then n_smooth attach-weighted solves) computed densely by the harness.
-    Returns (list of un-normalised stage solutions on `free`, max condition number)."""
+    Returns (list of un-normalised stage solutions on `free`, max condition number, a-priori bound on the round-off error of
+    the final *normalised* values per free element: eps*cond*|x|_inf (+ propagated error of the previous stage) over |x_i|)."""
     LI = L[np.ix_(free, free)]
     LB = L[np.ix_(free, fixed)]
     valB = LB @ var0[fixed]
     conds = [np.linalg.cond(LI)]
     if not np.isfinite(conds[0]) or conds[0] > 1e12:
-        return None, conds[0]
+        return None, conds[0], None
     xs = [np.linalg.solve(LI, -valB)]
+
+    def direction_error(x, dx):
+        return dx / np.maximum(np.abs(x), 1e-300)
+
+    err = direction_error(xs[0], EPS * conds[0] * float(np.max(np.abs(xs[0]))) if xs[0].size else 0.0)
     if n_smooth > 0:
         AI = A[np.ix_(free, free)]
         mat = LI - alpha * AI
         conds.append(np.linalg.cond(mat))
         if not np.isfinite(conds[-1]) or conds[-1] > 1e12:
-            return xs, max(conds)
+            return xs, max(conds), None
+        gain = float(np.linalg.norm(np.linalg.solve(mat, alpha * AI), 2))
         for _ in range(n_smooth):
             x = xs[-1].copy()
             nz = np.abs(x) > 1e-10
             x[nz] = x[nz] / np.abs(x[nz])
             xs.append(np.linalg.solve(mat, -valB - alpha * (AI @ x)))
-    return xs, max(conds)
+            prev = float(np.linalg.norm(np.minimum(err, 2.0)))
+            err = direction_error(xs[-1], EPS * conds[-1] * float(np.max(np.abs(xs[-1]))) + gain * prev)
+    return xs, max(conds), err
 
 
 def forced_zeros(L, A):
@@ -411,9 +423,9 @@ def fn_field(case, ctx):
                   f"max |L - L^H| = {float(np.max(np.abs(L - L.conj().T))):.3e} (scale {sc:.3g})")
 
     # harness-side replica of the documented scheme (asserted only for n_smooth = 0; otherwise used for exemptions)
-    xs = cond = None
+    xs = cond = err = None
     if L is not None and fixed:
-        xs, cond = replicate_solve(L, A, free, fixed, var0, int(case["n_smooth"]), float(case["alpha"]))
+        xs, cond, err = replicate_solve(L, A, free, fixed, var0, int(case["n_smooth"]), float(case["alpha"]))
         if not np.isfinite(cond) or cond > 1e12:
             # negative cotangent weights of a non-Delaunay mesh (or an attach weight hitting an eigenvalue) can make the
             # system exactly singular: no solution is defined, nothing to assert
@@ -506,7 +518,9 @@ def fn_field(case, ctx):
             ctx.discard("harmonic extension ill-conditioned (cond > 1e6)")
         else:
             x = xs[0]
-            okm = np.abs(x) >= 1e-6
+            okm = (np.abs(x) >= 1e-6) & (err <= TOL_SOLVE / 10)      # direction determined to better than the tolerance
+            if not np.all(okm):
+                ctx.label("harmonic-some-elements-exempt")
             exp_ = x[okm] / np.abs(x[okm])
             got = var[np.array(free, dtype=int)[okm]]
             if exp_.size:
@@ -575,15 +589,15 @@ def run_field(case, V, F, ctx, tag):
     ref = SurfRef(len(V), F)
     medges = lib_edges(mesh)
     fe, fixed, free = partition(case, mesh, ff, ref, medges)
-    xs = cond = None
+    xs = cond = err = None
     if fixed and free:
         L, A = library_operators(case, mesh, ff)
-        xs, cond = replicate_solve(L, A, free, fixed, var0, int(case["n_smooth"]), float(case["alpha"]))
+        xs, cond, err = replicate_solve(L, A, free, fixed, var0, int(case["n_smooth"]), float(case["alpha"]))
     ok, _ = ctx.call("run", ff.run)
     if not ok: return None
     var = np.array(ff.var, dtype=complex)
     return {"mesh": mesh, "ff": ff, "var0": var0, "var": var, "fe": set(key(*medges[e]) for e in fe), "fixed": fixed, "free": free,
-            "xs": xs, "cond": cond, "ref": ref}
+            "xs": xs, "cond": cond, "err": err, "ref": ref}
 
 
 def edge_measure(case, r, V, F, which):
@@ -655,12 +669,16 @@ def fn_renumber(case, ctx):
                     terms.append((c / abs(c)) ** order)
                 else:
                     terms.append(cmath.exp(1j * order * float(ff.conn.transport(a, b))))
-            part = 0
-            for k, t in enumerate(terms):
-                part += t
-                if abs(part) < 1e-3:
-                    _discard(ctx, "cancelling constraint sum at a vertex")
-                    return
+            # the library adds the terms in edge order and skips a term that would cancel the running sum exactly, so an
+            # exactly vanishing sub-sum makes the constraint depend on the order; a small total is ill-conditioned
+            ill = len(terms) > 8 or abs(sum(terms)) < 1e-3
+            for mask in range(1, 2 ** min(len(terms), 8) - 1):
+                if abs(sum(t for k, t in enumerate(terms) if mask >> k & 1)) < 1e-8:
+                    ill = True
+                    break
+            if ill:
+                _discard(ctx, "cancelling constraint sum at a vertex")
+                return
     r2 = run_field(case, V2, F2, ctx, "renumbered")
     if r2 is None: return
     inv = {(perm[a], perm[b]) for (a, b) in r1["fe"]}
@@ -673,6 +691,9 @@ def fn_renumber(case, ctx):
             return
         if r["xs"] is not None and any(float(np.min(np.abs(x))) < 1e-4 for x in r["xs"] if x.size):
             _discard(ctx, "un-normalised value below 1e-4")
+            return
+        if r["fixed"] and r["free"] and (r["err"] is None or (r["err"].size and float(np.max(r["err"])) > TOL_SOLVE / 10)):
+            _discard(ctx, "round-off bound of the normalised solution above 1e-9")
             return
     ctx.label("compared")
     for which, sig in (("var0", "constraints-depend-on-numbering"), ("var", "field-depends-on-numbering")):
